@@ -384,12 +384,21 @@ func runSema(rc *kernel.RunCtx, k *kernel.Kernel, misuse bool) {
 	useCause := tp.Bool(1, 3)
 	useDeadline := !useCause && tp.Bool(1, 2)
 	cause := errors.New("custom cancellation cause")
+	// With deadlines: one task's first context has a nearer deadline than all
+	// others, and the clock may pass it after that context has been cancelled
+	// (its error stays context.Canceled).
+	victim := tp.Choose(nTasks)
+	clockJump := useDeadline && tp.Bool(1, 2)
 	for i := range ctxs {
 		for j := 0; j <= nOps[i]; j++ {
 			if useDeadline {
 				// A context with a far deadline (simulated time never gets
-				// there) that is cancelled early.
-				c, cf := context.WithTimeout(context.Background(), time.Hour)
+				// there while it is live) that is cancelled early.
+				d := 1000 * time.Hour
+				if i == victim && j == 0 {
+					d = time.Hour
+				}
+				c, cf := context.WithTimeout(context.Background(), d)
 				ctxs[i] = append(ctxs[i], ctxPair{ctx: c, cancel: cf})
 
 				continue
@@ -566,6 +575,24 @@ func runSema(rc *kernel.RunCtx, k *kernel.Kernel, misuse bool) {
 		}
 
 		return ids
+	}
+	if clockJump {
+		k.Go("clock", true, func() {
+			k.YieldOpts(kernel.Opts{
+				Site: "clock-jump",
+				Pred: func() bool { return cancelled[victim] && curCtx[victim] == 0 },
+				Act: func() any {
+					// Simulated time passes (the scheduler goroutine sleeps in
+					// the bubble's fake time while every task is parked).
+					time.Sleep(2 * time.Hour)
+					rc.Stats.Fault("clock-passes-deadline-of-cancelled-context")
+					k.Logf("  clock jumps beyond the deadline of T", kernel.Itoa(victim), "'s cancelled context")
+
+					return nil
+				},
+			})
+			k.YieldOpts(kernel.Opts{Site: "clock.done", Pred: func() bool { return false }})
+		})
 	}
 	k.Go("canceller", true, func() {
 		for {
